@@ -612,6 +612,7 @@ def _c19_canon_items(txt):
 
 
 def _c19_project(out):
+    # (KAN lines - the composed kanata-level model - have no separate specification output: `-`)
     if out.startswith('U '):
         st = out.split(' # st ')[1]
         if st == '-':
@@ -660,6 +661,9 @@ def _c19_free_oracle(case, impl):
 def _c19_nontrivial(case, impl):
     if impl.startswith('L '):
         return ' # st -' not in impl
+    if case.startswith('KAN '):
+        # a macro was stored and the run produced OS output
+        return ' st=' in impl and ' st=-' not in impl and impl.count('@') >= 2
     # something was stored, or a replay fed at least one event
     return (' # st -' not in impl and ' # st ' in impl) or bool(re.search(r'\be[+-]\d', impl))
 
@@ -675,6 +679,19 @@ def _c19_stats(cases, impl):
             if m:
                 d['late_rest_' + m.group(1)] += 1
                 d['late_replay_started' if m.group(2) != '0' else 'late_no_replay'] += 1
+            continue
+        if t[0] == 'KAN':
+            # composed kanata-level model (Model/Kanata.lean + KanataDyn + KanataDynTick)
+            d['kanata_composed'] += 1
+            d['kanata_composed_' + i.split(' ')[0].split('=')[0] if i.startswith(('rej', 'crash', 'unsupported')) else 'kanata_composed_modelled'] += 1
+            if ' st=' in i and ' st=-' not in i:
+                d['kanata_composed_saved_a_macro'] += 1
+            if ' gap ' in c:
+                d['kanata_composed_processing_loop'] += 1
+            if re.search(r' rep=\d', i):
+                d['kanata_composed_replay_active_at_end'] += 1
+            if re.search(r' rec=\d', i):
+                d['kanata_composed_recording_at_end'] += 1
             continue
         fam = 'unit_ops' if t[1] == 'U' else 'kanata_e2e'
         d[fam] += 1
@@ -729,6 +746,9 @@ def _c19_shrink(case):
             rest = steps[:j] + steps[j + 1:]
             yield ' '.join(head + [str(len(rest))] + [x for o in rest for x in o])
         return
+    if t[0] == 'KAN':
+        yield from _lay_shrink(case)
+        return
     if t[1] == 'U':
         ops, i = [], 5
         while i < len(t):
@@ -767,6 +787,9 @@ def _c19_describe(case):
         ns = int(t[3])
         return {'config': bytes.fromhex(t[2]).decode(), 'stop_keys': t[4:4 + ns],
                 'steps': 'd/u = press/release of the key code, t n = n calls of tick_ms(1), w n = wait for the replay to end then n ticks; at the end all keys are released and 3000 ticks run: ' + ' '.join(t[5 + ns:])}
+    if t[0] == 'KAN':
+        return ('real Kanata against the composed kanata-level model (configuration text hex-encoded; history p/r = press/release, '
+                't n = n x tick_ms(1), gap n = n ms of the processing loop): ' + str(_lay_describe(case)))
     if t[1] == 'U':
         return ('direct calls of the dynamic_macro.rs functions (b=begin_record_macro id, p=record_press osc, '
                 'r=record_release osc, s=stop_macro n, y=play_macro id, t=tick_record_state, x=tick_replay_state); '
@@ -779,7 +802,7 @@ def _c19_describe(case):
 
 
 PROPS['C19'] = {
-    'lean_modules': ['KVerif.Props.C19'],
+    'lean_modules': ['KVerif.Props.C19', 'KVerif.Props.C19kan'],
     'oracle_project': _c19_project,
     'nontrivial': _c19_nontrivial,
     'rule': 'unit level: every sequence of up to 3 (thorough: 5) calls over a 12-call alphabet, random sequences of 4-120 calls and structured record-then-replay sessions (nested plays, self-recursion attempts) of the dynamic_macro.rs functions (limits 0,1,2,3,5,128; both delay behaviours); end to end on the real Kanata: record/type/stop/replay scenarios with markers (keys held across start and stop, truncation 0-3 and beyond, limit exceeded, nested play, replay twice, typing during replay; plain-key and tap-hold configurations), random histories over plain, record, play, stop and multi keys including physically inconsistent ones, tick_ms with ms_elapsed of 65535..140000 during a replay with recorded delays of up to 65535, and three crash-shaped histories (two multi keys, one with plain keys only); non-trivial = a macro was stored or a replay fed an event; distinct = distinct case line',
@@ -2766,6 +2789,9 @@ def _c19_os_stream(case, out):
     and replay-queue digests are bookkeeping the statement does not fix"""
     if out.startswith(('rej', 'crash', 'unsupported', 'bad')):
         return out.split(' ')[0]
+    if case.startswith('KAN '):
+        # composed model: the OS events with their tick stamps and the idle flag; not the digests
+        return re.sub(r' M rec=\S* rep=\S* st=\S*', '', re.sub(r' D \S+', '', out))
     return ' | '.join(seg.split(';')[0].strip() for seg in out.split(' | '))
 
 
@@ -2774,6 +2800,7 @@ PROPS['C19']['norm_impl'] = _c19_norm_impl
 PROPS['C19']['free_oracle'] = _c19_free_oracle
 PROPS['C19']['rule'] += ('; L lines (model-free, real Kanata on a configuration given as text): a dynamic-macro play action (of the macro being recorded, or of another one as control) or the stop action as the tap / hold of a tap-hold, as first / second tap-dance item, or as a plain key typed while another tap-hold is undecided; timeouts {50,100,200}, both delay behaviours, stop pressed before / after the late action has fired; record - type - stop - replay once; oracle: the replay activity ends within 1.5 s of the last input, nothing stays down, no event of the stop key is stored')
 PROPS['C07']['rule'] += ('; dynamic macro recorder (paired loops only): record / hold a key for g ms / stop / replay, g around a tap-hold timeout, flat, with the replay on a layer where the key is a tap-hold, and with a tap-hold key stopped by the stop key; both replay-delay behaviours; random histories over those keys')
+PROPS['C19']['expand'] = True   # KAN lines (composed kanata-level model); C19 lines pass through unchanged
 PROPS['C19']['determined_what'] = 'the key events sent to the OS at every step (typing while recording, and the replay)'
 
 
